@@ -719,6 +719,7 @@ class Interp:
         self.unroll_depth = 0
         self.fn_attrs = {}
         self._rebinds = {}
+        self.cached_results = {}
         self.last_comp_facts = []
         self.approx_sites = set()  # constructions whose arguments came from a * / ** expansion of unknown shape
         self.arity_mismatch = {}  # call sites where some callee could not take the arguments
@@ -1024,6 +1025,18 @@ class Interp:
                 return
             out.ret.append((fr.store, v))
             return
+        if isinstance(st.value, ast.BoolOp) and self.boolean_typed(st.value):
+            # `return a == b and all(...)`: True with what the conjuncts established, False without
+            base = fr.store.facts
+            ct, s_t, cf, s_f = self.cond(fr, st.value, fr.store.copy())
+            if ct and cf and s_t.facts != s_f.facts:
+                out.ret.append((s_t, av(const(True))))
+                out.ret.append((s_f, av(const(False))))
+                return
+            if ct or cf:
+                s_ = s_t if ct else s_f
+                out.ret.append((s_, av(BOOL) if (ct and cf) else av(const(bool(ct)))))
+            return
         v = av(NONE) if st.value is None else self.eval(fr, st.value)
         alts = fr.call_alts.pop(id(st.value), None) if isinstance(st.value, ast.Call) else None
         if alts:
@@ -1073,7 +1086,22 @@ class Interp:
         ci = ClassInfo(st.name, st, bases)
         record = None
         if st.decorator_list:
-            names = {(dotted(d) or (dotted(d.func) if isinstance(d, ast.Call) else None) or '?').split('.')[-1] for d in st.decorator_list}
+            names = set()
+            for d in st.decorator_list:
+                n_ = (dotted(d) or (dotted(d.func) if isinstance(d, ast.Call) else None) or '?').split('.')[-1]
+                if n_ not in ('dataclass', 'total_ordering', 'final'):
+                    # an alias such as `record = dataclass(eq=False)`: what does the decorator expression evaluate to?
+                    try:
+                        dv = self.eval(fr, d)
+                    except Unreachable:
+                        dv = BOT
+                    fr.pending = []
+                    kinds = {a[1] for a in dv if a[0] == 'lib'}
+                    if dv and len(kinds) == len(dv) and kinds <= {'dataclasses.dataclass', '<dataclass>'}:
+                        n_ = 'dataclass'
+                    elif dv and len(kinds) == len(dv) and kinds <= {'functools.total_ordering', 'typing.final'}:
+                        n_ = 'final'
+                names.add(n_)
             if names <= {'dataclass', 'total_ordering', 'final'}:
                 record = 'dataclass' if 'dataclass' in names else None
             else:
@@ -1113,6 +1141,20 @@ class Interp:
             self.make_record_class(ci, record, st)
         self.bind(fr, st.name, av(('cls', st.name)))
         out.next.append(store)
+
+    def boolean_typed(self, e):
+        """syntactically a boolean: comparisons, not, all / any / isinstance calls, and / or of such"""
+        if isinstance(e, ast.BoolOp):
+            return all(self.boolean_typed(v) for v in e.values)
+        if isinstance(e, ast.Compare):
+            return True
+        if isinstance(e, ast.UnaryOp) and isinstance(e.op, ast.Not):
+            return True
+        if isinstance(e, ast.Call) and isinstance(e.func, ast.Name) and e.func.id in ('all', 'any', 'isinstance', 'issubclass', 'hasattr', 'callable', 'bool'):
+            return True
+        if isinstance(e, ast.Constant) and isinstance(e.value, bool):
+            return True
+        return False
 
     def raw_class(self, name, lineno):
         """the class definition as written (annotations intact): the shared loader normalises `x: T` away"""
@@ -3163,6 +3205,8 @@ class Interp:
                     elems = x
                 todo = [elems] if elems else []
                 summary = True
+                if elems and len(elems) <= MAX_DISJUNCTS and all((a[0] == 'obj' and '@' in a[1]) or a[0] in ('fn', 'clo', 'partial', 'lam') for a in elems):
+                    todo = [av(a) for a in sorted(elems, key=str)]
             if summary:
                 self.summary_depth += 1
             else:
@@ -3737,6 +3781,20 @@ class Interp:
                 return self.split(fr, store, refine, name, yes, no)
             self.unrefined_type_tests.add(id(test))
             return None
+        if d == 'callable' and len(test.args) == 1 and self.is_builtin_name(fr, 'callable'):
+            xv = self.eval(fr, test.args[0])
+            yes, no = set(), set()
+            for a in xv:
+                if a[0] in ('fn', 'clo', 'lam', 'partial', 'bound', 'cls', 'builtin', 'lib', 'bmeth') or \
+                        (a[0] == 'obj' and a[1] in self.classes and self.find_method(a[1], '__call__')[1] is not None):
+                    yes.add(a)
+                elif a in (TOP, EXT):
+                    yes.add(a)
+                    no.add(a)
+                else:
+                    no.add(a)
+            name = test.args[0].id if isinstance(test.args[0], ast.Name) else None
+            return self.split(fr, store, refine, name, frozenset(yes), frozenset(no))
         if d == 'hasattr' and len(test.args) == 2 and self.is_builtin_name(fr, 'hasattr'):
             xv = self.eval(fr, test.args[0])
             nv = self.eval(fr, test.args[1])
@@ -4200,6 +4258,24 @@ class Interp:
             if parent is None:
                 raise self.err(node, 'closure {} has lost its defining frame'.format(q))
         scope = self.scope_of(fnnode)
+        if self.decor.get(q) and not fnnode.args.args and not self.in_module_init and parent is None \
+                and any((d_ or '').split('.')[-1] in ('cache', 'lru_cache') for d_ in self.decor[q]) and not args.pos and not args.kw:
+            # @cache def table(): ... builds its value once: the objects it creates are as unique as module-level ones
+            if q not in self.cached_results:
+                saved = (self.in_module_init, self.summary_depth, self.unroll_depth)
+                self.in_module_init, self.summary_depth, self.unroll_depth = True, 0, 0
+                self._mro_cache.clear(); self._fm_cache.clear(); self._sub_cache.clear()
+                try:
+                    top = Frame(self, '<cache>', None, None, self.fid_for(('cache', q)))
+                    top.store = Store()
+                    top.summary = Summary()
+                    self.cached_results[q] = self.call_user(top, fnatom, Args(), node, None)
+                finally:
+                    self.in_module_init, self.summary_depth, self.unroll_depth = saved
+                self.reached.add(q)
+            if not self.cached_results[q]:
+                return BOT
+            return self.cached_results[q]
         bound, syms = self.bind_params(parent, fnnode, args, self_val)
         if bound is None:
             self.arity_mismatch.setdefault(id(node), (fr.qual, node, q))
@@ -4713,8 +4789,9 @@ class Interp:
                             out = join(out, v)
                         else:
                             missing = True
-                else:
+                elif is_str_atom(n) or n == TOP:
                     raise self.err(node, 'getattr with a computed attribute name')
+                # any other value is not an attribute name at all: TypeError, not among the judged faults
             if len(pos) > 2 and (missing or not out):
                 out = join(out, pos[2])
             return out
@@ -5302,6 +5379,10 @@ class Interp:
                 if a[0] == 'kdict':
                     out = join(out, av(('seq', 'tuple', tuple(v for _, v in a[1]))))
             return out
+        if name == 'dataclasses.dataclass':
+            if x is not None and all(a[0] == 'cls' for a in x):
+                raise self.err(node, 'dataclass() applied to a class by a call')
+            return av(('lib', '<dataclass>'))
         if name in ('dataclasses.field',):
             return args.kw.get('default', av(NONE))
         if name in ('itertools.chain', 'itertools.chain.from_iterable'):
